@@ -39,7 +39,7 @@ COMPONENTS = {
     "stub_or_harness": ["history generator", "spec/value generators", "reference spec parser (which members are public)"],
 }
 FAULT_KINDS = ["setattr_attempt", "delattr_attempt", "source_list_mutation", "returned_value_mutation_attempt"]
-PROBES = ["array_element_mutation_attempt", "array_of_structs", "optional_array_present", "blob_on_deserialized_instance", "case_data_mutated_through_parent",
+PROBES = ["packet_write_method", "serialize_into_sanitising_writer", "array_element_mutation_attempt", "array_of_structs", "optional_array_present", "blob_on_deserialized_instance", "case_data_mutated_through_parent",
           "one_shot_iterator_argument", "nested_instance_setattr", "byte_size_setattr", "first_serialize_failed_skipped",
           "tree_rejected", "returned_value_was_mutable"]
 
@@ -84,10 +84,20 @@ class Instance:
         kwargs = {k: self._build(v, mask) for k, v in value["f"].items()}
         return te.bridge.cls(value["cls"])(**kwargs)
 
-    def serialize(self):
+    def serialize(self, sanitize=False, via_write=False):
         w = self.te.EoWriter()
-        self.te.bridge.cls(self.cls_name).serialize(w, self.obj)
+        w.string_sanitization_mode = bool(sanitize)
+        if via_write and hasattr(self.obj, "write"):
+            self.obj.write(w)
+        else:
+            self.te.bridge.cls(self.cls_name).serialize(w, self.obj)
         return bytes(w.to_bytearray())
+
+    def snapshot(self):
+        """Everything the public getters show, at every depth (must never change)."""
+        problems = []
+        tree = self.te.bridge.extract(self.obj, self.cls_name, problems)
+        return repr(tree) + repr(problems)
 
     def targets(self):
         """[(path, object, class name)] of every generated-class instance reachable through getters."""
@@ -138,12 +148,17 @@ def other_value(v):
 def gen_ops(inst, rng, n):
     """Concrete operation list for one instance (paths are resolved against the current object graph)."""
     spec = inst.te.spec
-    ops = [["serialize"]]
+    is_packet = spec.classes[inst.cls_name].kind == "packet"
+
+    def observe():
+        return ["serialize", rng.random() < 0.3, is_packet and rng.random() < 0.5]
+
+    ops = [observe()]
     targets = inst.targets()
     for _ in range(n):
         r = rng.random()
         if r < 0.25:
-            ops.append(["serialize"])
+            ops.append(observe())
             continue
         ti = rng.randrange(len(targets))
         path, obj, cls_name = targets[ti]
@@ -159,7 +174,8 @@ def gen_ops(inst, rng, n):
         else:
             ops.append(["mutate_returned", path, attr, rng.choice(["setitem", "append", "extend", "clear", "iadd"]),
                         rng.choice([None, 0, 1, -1])])
-    ops.append(["serialize"])
+    ops.append(observe())
+    ops.append(["serialize", False, False])
     return ops
 
 
@@ -200,25 +216,46 @@ def run_history(inst, ops, res, tr, case, shape):
                         res.count("probe.array_of_structs")
                     if type(v) is not tuple:
                         return viol("array-not-tuple", inst.origin, f"{cls_name}.{attr} of a {inst.origin} instance is a {type(v).__name__}")
-    first = None
+    firsts = {}
+    try:
+        snap0 = inst.snapshot()
+    except Exception:  # noqa
+        snap0 = None
     for step, op in enumerate(ops):
         res.evaluations += 1
         name = op[0]
-        if name == "serialize":
+        if snap0 is not None and step > 0:
             try:
-                out = inst.serialize()
+                snap = inst.snapshot()
+            except Exception as e:  # noqa
+                snap = f"snapshot raised {type(e).__name__}"
+            if snap != snap0:
+                return viol("observable-state-changed", inst.origin,
+                            f"{inst.cls_name} ({inst.origin} instance): what the public getters return changed after "
+                            f"{ops[step - 1]}: {snap0[:300]} -> {snap[:300]}")
+        if name == "serialize":
+            sanitize = bool(op[1]) if len(op) > 1 else False
+            via_write = bool(op[2]) if len(op) > 2 else False
+            try:
+                out = inst.serialize(sanitize, via_write)
             except Exception as e:  # noqa
                 out = ("raised", type(e).__name__)
-            tr.ev(step, name, out.hex() if isinstance(out, bytes) else out)
+            tr.ev(step, name, sanitize, via_write, out.hex() if isinstance(out, bytes) else out)
+            if via_write:
+                res.count("probe.packet_write_method")
+            if sanitize:
+                res.count("probe.serialize_into_sanitising_writer")
+            first = firsts.get(sanitize)
             if first is None:
-                first = out
-                if not isinstance(out, bytes):
+                firsts[sanitize] = out
+                if not isinstance(out, bytes) and not firsts.get(False):
                     res.count("probe.first_serialize_failed_skipped")
                     return None
             elif out != first:
-                prev = [o for o in ops[:step] if o[0] != "serialize"][-3:]
+                prev = [o for o in ops[:step]][-3:]
                 return viol("serialization-changed", inst.origin,
-                            f"{inst.cls_name} ({inst.origin} instance): serialization changed from "
+                            f"{inst.cls_name} ({inst.origin} instance): serialization into a fresh writer (sanitisation "
+                            f"{sanitize}, via {'write()' if via_write else 'serialize()'}) changed from "
                             f"{first.hex() if isinstance(first, bytes) else first} to {out.hex() if isinstance(out, bytes) else out} "
                             f"after {prev}")
             continue
